@@ -555,6 +555,8 @@ def det_cases(tpl, tier):
     for l in lists:
         total *= len(l)
     cap = tpl.cap or (600 if tier == "thorough" else (96 if tpl.depth else 40))
+    if os.environ.get("C18_DEVCAP"):
+        cap = min(cap, int(os.environ["C18_DEVCAP"]))
     if total <= cap:
         for combo in itertools.product(*lists):
             yield list(combo[:-1]), combo[-1]
@@ -701,6 +703,19 @@ class C18(Check):
             self.run_group(res, cur, stratum, unsupported)
 
     def run_shard(self, tier, seed, shard, nshards):
+        # miasm's VM prints a WARNING line on stderr for every unmapped access: keep the run quiet
+        # (harness errors travel as exceptions through the runner, not through this descriptor)
+        saved = os.dup(2)
+        devnull = os.open(os.devnull, os.O_WRONLY)
+        os.dup2(devnull, 2)
+        os.close(devnull)
+        try:
+            return self._run_shard(tier, seed, shard, nshards)
+        finally:
+            os.dup2(saved, 2)
+            os.close(saved)
+
+    def _run_shard(self, tier, seed, shard, nshards):
         res = ShardResult()
         res.max_failures_per_bucket = 2
         allt = tables(tier)
